@@ -569,7 +569,7 @@ def send_sym(sym, ad, k=0):
     elif t == "4":
         s = sym.get("seq", "nout")
         sv = {"nout": ad.nout, "below": ad.nout - 1, "above": ad.nout + 3, "garbled": "xx"}.get(s, s)
-        tags = [["123", "Y"]]
+        tags = [] if sym.get("plain") else [["123", "Y"]]     # plain: SequenceReset-Reset (no GapFillFlag)
         if s != "missing":
             tags.append(["34", str(sv)])
         tags.append(["36", str(ad.nout + 2)])
